@@ -560,4 +560,84 @@ def exV4 : VSt := { buf := { text := "a\nbc\nd".toList, cur := 0 }, ring := [], 
 example : (vstep 3 exV4 none (.vis .lines 3 2 .d none)).buf.text = "a\nd".toList ∧
     getData (vstep 3 exV4 none (.vis .lines 3 2 .d none)).ring = ⟨"bc".toList, .lines⟩ := by decide
 
+
+/-! ### pasting at the key level; cut then paste restores -/
+
+/-- **p / P / "rp / "rP are `paste_clipboard_data`.**  At the key level the text after `[count]p`,
+    `[count]P` (unnamed register = top of the ring) and `[count]"rp`, `[count]"rP` (named register)
+    is exactly `Document.paste_clipboard_data(data, VI_AFTER / VI_BEFORE, count)` of the buffer the
+    command sees — so `paste_chars`, `paste_lines`, `paste_block` describe it for every data type —
+    and no register changes. -/
+theorem vi_paste_is_paste_clipboard_data (max : Nat) (s : VSt) (count : Option Nat) :
+    let b := seen s count
+    let n : Int := (viCount count : Nat)
+    (vstep max s count .p).buf.text = (pasteRaw b (getData s.ring) .viAfter n).1 ∧
+    (vstep max s count .P).buf.text = (pasteRaw b (getData s.ring) .viBefore n).1 ∧
+    (vstep max s count .p).ring = s.ring ∧ (vstep max s count .P).ring = s.ring ∧
+    (vstep max s count .p).regs = s.regs ∧ (vstep max s count .P).regs = s.regs ∧
+    ∀ r d before, isRegName r = true → regGet s.regs r = some d →
+      (vstep max s count (.regP r before)).buf.text =
+        (pasteRaw b d (if before then .viBefore else .viAfter) n).1 := by
+  simp only [vstep]
+  simp only [show (if count.isSome = true then fixNav s.buf else s.buf) = seen s count from rfl]
+  refine ⟨by simp [fixNav_text, pasteBuf], by simp [fixNav_text, pasteBuf], trivial, trivial, trivial, trivial, ?_⟩
+  intro r d before hr hd
+  simp [hr, hd, fixNav_text, pasteBuf]
+
+def exV5 : VSt := { buf := { text := "ab\ncd".toList, cur := 0 }, ring := [⟨"L".toList, .lines⟩], regs := [] }
+example : (vstep 3 exV5 (some 2) .p).buf.text = "ab\nL\nL\ncd".toList ∧
+    (vstep 3 exV5 none .P).buf.text = "L\nab\ncd".toList := by decide
+
+/-- Pasting CHARACTERS data back at the place it was cut from — `P` when the cursor is still at
+    the cut point, `p` when `_fix_vi_cursor_position` moved it one to the left — restores the text. -/
+theorem paste_back_restores (b' : Buf) (X t : Text) (h : t = reinsert b'.text b'.cur X) :
+    (pasteBuf (fixNav b') { text := X, ty := .chars }
+      (if (fixNav b').cur = b'.cur then .viBefore else .viAfter) ((1 : Nat) : Int)).text = t := by
+  have hty : ({ text := X, ty := SelType.chars } : Clip).ty = .chars := rfl
+  simp only [pasteBuf]
+  rcases fixNav_cur b' with hc | ⟨hc, _⟩
+  · rw [if_pos hc, (paste_chars (fixNav b') _ hty .viBefore ((1 : Nat) : Int)).1]
+    simp only [reduceCtorEq, if_false, fixNav_text, hc]
+    rw [h]; simp [reinsert, repeatText]
+  · rw [if_neg (by omega), (paste_chars (fixNav b') _ hty .viAfter ((1 : Nat) : Int)).1]
+    simp only [if_true, fixNav_text, hc]
+    rw [h]; simp [reinsert, repeatText]
+
+/-- **visual delete then paste restores.**  After `v … d` (or `v … x`) removed a non-empty
+    selection into the unnamed register, pasting it back (`P`, or `p` when the cursor had to step
+    left from the end of the line) gives the original text. -/
+theorem visual_chars_delete_then_paste_restores (mx : Nat) (hmax : 0 < mx) (s : VSt) (a c : Nat)
+    (act : VisAct) (hact : act = .x ∨ act = .d) (hX : visText s.buf.text a c ≠ []) :
+    let s1 := vstep mx s none (.vis .chars a c act none)
+    (vstep mx s1 none (if s1.buf.cur = visLo s.buf.text a c then .P else .p)).buf.text = s.buf.text := by
+  have hcut := vis_chars_cut s a c
+  have hcutx := vis_chars_cut_x s a c
+  have hlohi : visLo s.buf.text a c ≤ visHi s.buf.text a c + 1 := by simp [visLo, visHi]; omega
+  have hlo : visLo s.buf.text a c ≤ s.buf.text.length := by simp [visLo]; omega
+  have hre : s.buf.text = reinsert (s.buf.text.take (visLo s.buf.text a c) ++ s.buf.text.drop (visHi s.buf.text a c + 1))
+      (visLo s.buf.text a c) (visText s.buf.text a c) := by
+    simp only [visText]; exact (cut_reinsert _ _ _ hlohi hlo).symm
+  have hst : storable { text := visText s.buf.text a c, ty := .chars } = true := by simp [storable, hX]
+  generalize hb' : (Buf.mk (s.buf.text.take (visLo s.buf.text a c) ++ s.buf.text.drop (visHi s.buf.text a c + 1))
+      (visLo s.buf.text a c)) = b' at hcut hcutx
+  have hb'c : b'.cur = visLo s.buf.text a c := by rw [← hb']
+  have hre' : s.buf.text = reinsert b'.text b'.cur (visText s.buf.text a c) := by rw [← hb']; exact hre
+  have key := paste_back_restores b' _ _ hre'
+  have hs1 : vstep mx s none (.vis .chars a c act none) =
+      { s with buf := fixNav b', ring := setData mx s.ring { text := visText s.buf.text a c, ty := .chars } } := by
+    rcases hact with rfl | rfl
+    · simp only [vstep, Option.isSome_none, Bool.false_eq_true, if_false, hcutx]
+    · simp only [vstep, Option.isSome_none, Bool.false_eq_true, if_false, hcut, hst, if_true]
+  simp only
+  rw [hs1, ← hb'c]
+  simp only
+  by_cases hc : (fixNav b').cur = b'.cur
+  · rw [if_pos hc] at key ⊢
+    simpa [vstep, fixNav_text, setData_top mx hmax, viCount] using key
+  · rw [if_neg hc] at key ⊢
+    simpa [vstep, fixNav_text, setData_top mx hmax, viCount] using key
+
+example : (vstep 3 (vstep 3 exV3 none (.vis .chars 7 2 .d none)) none .P).buf.text = "hello world".toList := by
+  decide
+
 end Ptk.C09
